@@ -18,6 +18,8 @@ pub enum Sched {
     PollRelay(u16),
     /// final receiver polls
     PollRecv(u16),
+    /// the store behind the relay goes away (its receiver is dropped); the relay must carry on
+    DropLast,
 }
 
 #[derive(Clone, Debug, Serialize, Deserialize, PartialEq, Eq, Hash)]
@@ -76,7 +78,32 @@ fn poll(m: &mut Mirror, t: usize, avail: usize, final_nodes: &[BddNode]) -> Resu
     Ok(ret)
 }
 
+/// the listener hangs up in the middle of the producer's work: the producer must stay a correct store
+fn producer_survives_hangup(prog: &Program, after: usize) -> Result<(), String> {
+    let (s, r) = crossbeam_channel::unbounded::<BddNode>();
+    let mut sh = Shadow::with_bdd(prog.k as usize, Bdd::with_sender(s));
+    let mut r = Some(r);
+    for (i, op) in prog.ops.iter().enumerate() {
+        if i == after {
+            r = None;
+        }
+        sh.step(op).map_err(|e| format!("producer whose listener hung up after {after} operations, step {i}: {e}"))?;
+    }
+    sh.invariants().map_err(|e| format!("producer whose listener hung up: {e}"))?;
+    // read-only queries still work on every handle
+    for (h, _, _) in &sh.issued {
+        let _ = sh.bdd.paths(*h, true);
+        let _ = sh.bdd.var_dependencies(*h);
+    }
+    drop(r);
+    Ok(())
+}
+
 fn c19_check(c: &StreamCase, st: &mut Stats) -> CheckResult {
+    if c.sched.iter().any(|s| matches!(s, Sched::DropLast)) && !c.prog.ops.is_empty() {
+        producer_survives_hangup(&c.prog, c.sched.len() % c.prog.ops.len())?;
+        st.label("producer_listener_hangup");
+    }
     let (nodes, stream) = produce(&c.prog)?;
     if stream[..] != nodes[2..] {
         return Err(format!(
@@ -100,10 +127,10 @@ fn c19_check(c: &StreamCase, st: &mut Stats) -> CheckResult {
             },
             name: if c.chain { "relay" } else { "receiver" },
         };
-        let mut last = Mirror {
+        let mut last = Some(Mirror {
             bdd: Bdd::with_receiver(r_mid),
             name: "receiver behind relay",
-        };
+        });
         let mut delivered = 0usize;
         for s in &c.sched {
             match s {
@@ -123,10 +150,15 @@ fn c19_check(c: &StreamCase, st: &mut Stats) -> CheckResult {
                     poll(&mut relay, t, 2 + delivered, &nodes)?;
                 }
                 Sched::PollRecv(t) => {
-                    if c.chain {
+                    if let (true, Some(l)) = (c.chain, last.as_mut()) {
                         let t = crate::gen::pick(*t, m + 6);
                         let avail = relay.bdd.nodes.len();
-                        poll(&mut last, t, avail, &nodes)?;
+                        poll(l, t, avail, &nodes)?;
+                    }
+                }
+                Sched::DropLast => {
+                    if c.chain && delivered > 0 {
+                        last = None;
                     }
                 }
             }
@@ -140,14 +172,14 @@ fn c19_check(c: &StreamCase, st: &mut Stats) -> CheckResult {
         if relay.bdd.nodes != nodes {
             return Err("after draining the channel the node tables differ".into());
         }
-        if c.chain {
+        if let (true, Some(last)) = (c.chain, last.as_mut()) {
             if m > 0 {
-                let ok = poll(&mut last, m + 1, m + 2, &nodes)?;
+                let ok = poll(last, m + 1, m + 2, &nodes)?;
                 if !ok {
                     return Err("receiver behind the relay did not find the last handle".into());
                 }
             }
-            poll(&mut last, m + 5, m + 2, &nodes)?;
+            poll(last, m + 5, m + 2, &nodes)?;
             if last.bdd.nodes != nodes {
                 return Err("after draining, the receiver behind the relay differs from the producer".into());
             }
@@ -308,6 +340,7 @@ fn stream_case(kmax: u8, maxops: usize) -> BoxedStrategy<StreamCase> {
                 3 => (0u8..5).prop_map(Sched::Deliver),
                 2 => any::<u16>().prop_map(Sched::PollRelay),
                 2 => any::<u16>().prop_map(Sched::PollRecv),
+                1 => Just(Sched::DropLast),
             ],
             0..14,
         ),
@@ -324,7 +357,7 @@ pub fn c19(tier: Tier) -> PropSpec {
                receiver (optionally through a with_sender_receiver relay) following a generated schedule of (deliver j messages | poll \
                relay for t | poll receiver for t) - the receiver only observes channel contents, so prefix cuts are all observable \
                interleavings, also inside one operation. After every poll: table == producer's first len nodes, return value iff \
-               handle present afterwards iff handle was in table-or-channel; stream == nodes[2..]; after draining tables identical. \
+               handle present afterwards iff handle was in table-or-channel; stream == nodes[2..]; after draining tables identical; the store behind a relay may be dropped mid-stream (the relay must carry on), and a producer whose listener hangs up mid-program must stay a correct store. \
                For streams of <= 7 messages all one- and two-poll schedules x all requested handles are enumerated exhaustively. \
                Part 'threads' runs the producer in a real thread (unbounded or bounded channel of capacity 1..3, where the producer blocks until the receiver polls) against a concurrently polling receiver: prefix invariant at every poll, identical tables at the end. \
                Non-trivial: a poll with 0 < delivered < total asking for a handle not yet present.",
@@ -444,6 +477,59 @@ fn all_vectors(maxlen: usize) -> Box<dyn Iterator<Item = Vec<u8>>> {
     }))
 }
 
+/// long vectors with many undecided positions: the iterators are lazy, so the first items must be
+/// right (and nothing may overflow) however large 2^k / 3^k is
+fn c20_lazy(v: &Vec<u8>, st: &mut Stats) -> CheckResult {
+    let input = to_terms(v);
+    let und: Vec<usize> = (0..input.len()).filter(|&i| !input[i].is_truth_value()).collect();
+    let k = und.len();
+    let two: Vec<Vec<Term>> = TwoValuedInterpretationsIterator::new(&input).take(6).collect();
+    let three: Vec<Vec<Term>> = ThreeValuedInterpretationsIterator::new(&input).take(6).collect();
+    let want2 = if k >= 3 { 6 } else { (1usize << k).min(6) };
+    let want3 = if k >= 2 { 6 } else { 3usize.pow(k as u32).min(6) };
+    if two.len() != want2 {
+        return Err(format!("two-valued iterator yielded only {} of the first {want2} completions for k={k}", two.len()));
+    }
+    if three.len() != want3 {
+        return Err(format!("three-valued iterator yielded only {} of the first {want3} refinements for k={k}", three.len()));
+    }
+    if three[0] != input {
+        return Err("three-valued: first item is not the interpretation itself".into());
+    }
+    for (name, items, total) in [("two-valued", &two, true), ("three-valued", &three, false)] {
+        let mut seen = HashSet::new();
+        for item in items.iter() {
+            if item.len() != input.len() {
+                return Err(format!("{name}: item of wrong length"));
+            }
+            for i in 0..input.len() {
+                if input[i].is_truth_value() {
+                    if item[i] != input[i] {
+                        return Err(format!("{name}: decided position {i} altered (k={k})"));
+                    }
+                } else if total && !item[i].is_truth_value() {
+                    return Err(format!("{name}: position {i} left undecided"));
+                } else if !total && !(item[i].is_truth_value() || item[i] == input[i]) {
+                    return Err(format!("{name}: position {i} holds a foreign handle"));
+                }
+            }
+            if !seen.insert(item.clone()) {
+                return Err(format!("{name}: item yielded twice among the first {}", items.len()));
+            }
+        }
+    }
+    if k >= 41 {
+        st.label("k>=41");
+    }
+    if k >= 64 {
+        st.label("k>=64");
+    }
+    if k >= 10 {
+        st.nontrivial(stable_hash(v), || json!({"length": v.len(), "undecided": k}));
+    }
+    Ok(Outcome::Ok)
+}
+
 pub fn c20(tier: Tier) -> PropSpec {
     let maxlen = tier.pick(7, 9);
     PropSpec {
@@ -452,7 +538,7 @@ pub fn c20(tier: Tier) -> PropSpec {
         rule: "exhaustive: every vector over {bot, top, undecided} of length 0..=7 (thorough 9); generated: lengths <= 14 with <= 9 \
                undecided positions holding arbitrary distinct handles. Two-valued iterator: exactly 2^k items, pairwise distinct, decided \
                positions untouched, others decided; three-valued: exactly 3^k, distinct, each position kept or decided, first item == input; \
-               next() after exhaustion stays None. Non-trivial: k >= 2 with undecided positions at both ends or next to a decided one.",
+               next() after exhaustion stays None. Part lazy-large: lengths 10..140 with up to ~100 undecided positions, the first 6 items of both iterators (laziness: nothing may depend on 2^k / 3^k fitting a machine word). Non-trivial: k >= 2 with undecided positions at both ends or next to a decided one.",
         assumptions: vec![],
         exhaustive: true,
         parts: vec![
@@ -478,6 +564,12 @@ pub fn c20(tier: Tier) -> PropSpec {
                         .boxed()
                 },
                 c20_check,
+            ),
+            Part::new(
+                "lazy-large",
+                tier.pick(3000, 30000),
+                || proptest::collection::vec(prop_oneof![1 => 0u8..2, 3 => 2u8..6], 10..140).boxed(),
+                c20_lazy,
             ),
         ],
     }
